@@ -69,6 +69,14 @@ BuildEv(s0, in, s1) ==
                             [] b.k = "write2" ->
                                  LET h(i) == [g |-> 80, v |-> 1, q |-> 0, a |-> i, b |-> i]
                                  IN IF b.ob = "bg" THEN <<h(4), h(7)>> ELSE <<h(7), h(4)>>
+                            [] b.k \in FrzFns ->
+                                 LET g20 == [g |-> 20, v |-> 0, q |-> 6, a |-> -1, b |-> -1]
+                                     g30 == [g |-> 30, v |-> 0, q |-> 6, a |-> -1, b |-> -1]
+                                 IN CASE b.ob = "rng" -> <<[g |-> 20, v |-> 0, q |-> 0, a |-> 0, b |-> 1]>>
+                                      [] b.ob = "gb" -> <<g20, g30>> [] b.ob = "bg" -> <<g30, g20>>
+                                      [] b.ob = "bad" -> <<g30>>
+                                      [] b.ob = "timed" -> <<[g |-> 50, v |-> 2, q |-> 7, a |-> 1, b |-> -1], g20>>
+                                      [] OTHER -> <<g20>>
                             [] OTHER -> <<>>
                   robjs == CASE isCtl -> <<CtlObj(b.ob, 0)>>
                              [] b.k = "write_rst" ->
